@@ -129,6 +129,38 @@ theorem quantiles_eq (x : List Rat) (v : Rat) (hx : x ≠ []) :
 theorem cnt_le_length (x : List Rat) (v : Rat) : cntGE x v ≤ x.length ∧ cntLE x v ≤ x.length :=
   ⟨List.countP_le_length, List.countP_le_length⟩
 
+/-- binned_ecdf(x, vals) is the list of "at most" probabilities at the query values, in order -/
+theorem binned_ecdf_eq (x : List Rat) (vals : List Rat) (hx : x ≠ []) :
+    binnedEcdf x vals = some (vals.map (fun v => (cntLE x v, x.length))) := by
+  unfold binnedEcdf
+  have : x.isEmpty = false := by cases x <;> simp_all
+  rw [this]; simp only [Bool.false_eq_true, if_false]
+  congr 1
+  induction vals with
+  | nil => rfl
+  | cons v vs ih => simp [le_ecdf_eq x v hx, ih]
+
+/-- the two probabilities of `get_quantiles` always sum to at least 1 (k_ge + k_le ≥ n) -/
+theorem quantiles_sum_ge (x : List Rat) (v : Rat) : x.length ≤ cntGE x v + cntLE x v := by
+  have := ecdf_sum x v; omega
+
+/-- v above every sample value: "at least" is 0 and "at most" is 1 -/
+theorem above_all (x : List Rat) (v : Rat) (h : ∀ a ∈ x, a < v) : cntGE x v = 0 ∧ cntLE x v = x.length := by
+  constructor
+  · unfold cntGE; rw [List.countP_eq_zero]; intro a ha; simp; exact Rat.not_le.mpr (h a ha)
+  · unfold cntLE; rw [List.countP_eq_length]; intro a ha; simp; exact Rat.le_of_lt (h a ha)
+
+/-- v below every sample value: "at least" is 1 and "at most" is 0 -/
+theorem below_all (x : List Rat) (v : Rat) (h : ∀ a ∈ x, v < a) : cntGE x v = x.length ∧ cntLE x v = 0 := by
+  constructor
+  · unfold cntGE; rw [List.countP_eq_length]; intro a ha; simp; exact Rat.le_of_lt (h a ha)
+  · unfold cntLE; rw [List.countP_eq_zero]; intro a ha; simp; exact Rat.not_le.mpr (h a ha)
+
+/-- the probabilities depend on the sample only as a multiset (order of the sample is irrelevant) -/
+theorem perm_invariant {x y : List Rat} (h : x.Perm y) (v : Rat) :
+    cntGE x v = cntGE y v ∧ cntLE x v = cntLE y v ∧ x.length = y.length :=
+  ⟨h.countP_eq _, h.countP_eq _, h.length_eq⟩
+
 -- non-vacuity: a sample with ties, query on a tied value
 example : geEcdf [3, 1, 3, 2] 3 = some (2, 4) ∧ leEcdf [3, 1, 3, 2] 3 = some (4, 4) := by
   rw [ge_ecdf_eq _ _ (by simp), le_ecdf_eq _ _ (by simp)]; decide +kernel
